@@ -40,7 +40,7 @@ SUITES = {
     ),
     "market": dict(
         mc=[dict(module="MC_Market", cfg=tiered("MC_Market_q1.cfg", "MC_Market_thorough.cfg"),
-                 timeout=tiered(1800, 6 * 3600), workers=tiered(6, 14)),
+                 timeout=tiered(1800, 5400), workers=tiered(6, 14)),
             dict(module="MC_Market", cfg="MC_Market_q2.cfg", timeout=tiered(1800, 3600), workers=tiered(6, 14),
                  may_be_dead=["TickStep"])],   # q2 explores two deals at a single epoch (no ticks)
         sim=dict(module="MC_Market", cfg="Sim_Market.cfg", num=tiered(100, 2000), depth=24),
@@ -62,7 +62,7 @@ SUITES = {
     ),
     "evm17": dict(
         mc=[dict(module="MC_EVM", cfg=tiered("MC_EVM.cfg", "MC_EVM_thorough.cfg"),
-                 timeout=tiered(1500, 7200), workers=tiered(6, 8))],
+                 timeout=tiered(1500, 5400), workers=tiered(6, 8))],
         driver="evm17",
         # --cases Q: operand pairs per arithmetic/comparison/bitwise instruction from the boundary lattice
         # (0 = all pairs); --other P: percentage of the memory/copy/storage/flow case families;
@@ -75,7 +75,7 @@ SUITES = {
     ),
     "evm18": dict(
         mc=[dict(module="MC_EVM", cfg=tiered("MC_EVM.cfg", "MC_EVM_thorough.cfg"),
-                 timeout=tiered(1500, 7200), workers=tiered(6, 8))],
+                 timeout=tiered(1500, 5400), workers=tiered(6, 8))],
         driver="evm18",
         # arbitrary byte strings as runtime code (--bytes random, --grammar instruction sequences, --mutated from
         # valid programs), as init code (--init; each also called afterwards), beneath STATICCALL chains (--static)
@@ -88,7 +88,7 @@ SUITES = {
         props=["C18", "C17"],
     ),
     "verif": dict(
-        mc=[dict(module="MC_VerifReg", cfg="MC_VerifReg.cfg", timeout=tiered(1800, 7200), workers=tiered(6, 14))],
+        mc=[dict(module="MC_VerifReg", cfg="MC_VerifReg.cfg", timeout=tiered(1800, 3600), workers=tiered(6, 14))],
         sim=dict(module="MC_VerifReg", cfg="Sim_VerifReg.cfg", num=tiered(100, 2000), depth=22),
         tour_cap=tiered(1500, 10 ** 9),
         driver="verif",
@@ -99,7 +99,7 @@ SUITES = {
     "sectors": dict(
         # the lifecycle model of one miner with the real tiny-policy numbers: exhaustive, with a transition tour
         mc=[dict(module="MC_Sectors", cfg=tiered("MC_Sectors.cfg", "MC_Sectors_thorough.cfg"),
-                 timeout=tiered(1500, 4 * 3600), workers=tiered(6, 14))],
+                 timeout=tiered(1500, 5400), workers=tiered(6, 14))],
         sim=dict(module="MC_Sectors", cfg="Sim_Sectors.cfg", num=tiered(10, 300), depth=40),
         tour_cap=tiered(160, 5000),
         driver="sectors",
@@ -135,12 +135,12 @@ SUITES = {
         # repeated ids and two declarations per message); thorough adds a second extension round and the
         # pre-commit / ProveCommitSectors3 path
         mc=[dict(module="MC_Claims", cfg=tiered("MC_Claims.cfg", "MC_Claims_thorough.cfg"),
-                 timeout=tiered(1500, 3 * 3600), workers=4),
+                 timeout=tiered(1500, 5400), workers=4),
             # the pre-commit / ProveCommitSectors3 path (sectors live 2953 epochs): one / two allocations
             dict(module="MC_Claims", cfg=tiered("MC_Claims_pcq.cfg", "MC_Claims_pc.cfg"),
                  timeout=tiered(900, 3600), workers=4)],
         sim=dict(module="MC_Claims", cfg="Sim_Claims.cfg", num=tiered(12, 36), depth=30),
-        tour_cap=tiered(400, 5000),
+        tour_cap=tiered(500, 5000),
         driver="claims",
         driver_args=lambda tier: ["--random", 40 if tier == "quick" else 1500, "--len", 80],
         trace=dict(module="Trace_Claims", cfg_in="Trace_Claims.cfg.in", timeout=4 * 3600, split=4),
